@@ -328,9 +328,19 @@ func implLine1(line string) string {
 		}
 	}
 	if fn, ok := extraOps[f[0]]; ok {
-		return fn(f[1:])
+		return guarded(func() string { return fn(f[1:]) })
 	}
 	return "bad-op"
+}
+
+// guarded: a panic of the library inside an op is a result ("panic:<value>"), not the end of the worker.
+func guarded(fn func() string) (res string) {
+	defer func() {
+		if r := recover(); r != nil {
+			res = "panic:" + strings.ReplaceAll(strings.ReplaceAll(fmt.Sprint(r), " ", "_"), "\n", "_")
+		}
+	}()
+	return fn()
 }
 
 var extraOps = map[string]func([]string) string{
